@@ -184,10 +184,150 @@ func C01(p *load.Prog, r *oblig.Run) {
 	r.Rule("R01.c", "tag -> specialised kind registry agrees with the tag each kind's constructor hard-wires; value and pointer are passed through", 27)
 	r.Rule("R01.d", "BOM flag is restored before any node on encode and recorded before any line on decode", 3)
 
+	r.Rule("R01.e", "the decoder's current family is updated for every decoded family line and never reset, so family-role lines the encoder wrote are accepted wherever they appear", 1)
 	c01Reader(p, r)
 	c01Writer(p, r)
 	c01Registry(p, r)
 	c01BOM(p, r)
+	c01Family(p, r)
+}
+
+// c01Family: in Decode, the *FamilyNode handed to parseLine is a loop-carried
+// variable. Every value that can flow into it must be the previous value or
+// the decoded node asserted to *FamilyNode under a successful comma-ok test,
+// and that assertion must be made for every successfully parsed line (it
+// dominates every attach call).
+func c01Family(p *load.Prog, r *oblig.Run) {
+	dec := p.Method(load.PkgRoot, "Decoder", "Decode")
+	parse := p.Func(load.PkgRoot, "parseLine")
+	o := r.Add("R01.e", "family tracking in Decode", "-", "current-family variable of the decoder")
+	if dec == nil || parse == nil {
+		o.Unknown("Decode/parseLine not found")
+		return
+	}
+	o.Pos = p.Pos(dec.Pos())
+	calls := su.CallsTo(dec, parse)
+	if len(calls) != 1 {
+		o.Unknown("expected one call of parseLine in Decode")
+		return
+	}
+	var famIdx = -1
+	for i, q := range parse.Params {
+		if n := load.NamedOf(q.Type()); n != nil && n.Obj().Name() == "FamilyNode" {
+			famIdx = i
+		}
+	}
+	if famIdx < 0 {
+		o.Unknown("parseLine has no *FamilyNode parameter")
+		return
+	}
+	fam := calls[0].Call.Args[famIdx]
+	phi, ok := fam.(*ssa.Phi)
+	if !ok {
+		o.Unknown("the family passed to parseLine is not a loop-carried variable")
+		return
+	}
+	var node ssa.Value
+	for _, ref := range *calls[0].Referrers() {
+		if ex, ok := ref.(*ssa.Extract); ok && ex.Index == 0 {
+			node = ex
+		}
+	}
+	// collect the values flowing into the variable (through nested phis)
+	seen := map[ssa.Value]bool{}
+	var leaves []ssa.Value
+	var walk func(v ssa.Value)
+	walk = func(v ssa.Value) {
+		if seen[v] {
+			return
+		}
+		seen[v] = true
+		if ph, ok := v.(*ssa.Phi); ok {
+			for _, e := range ph.Edges {
+				walk(e)
+			}
+			return
+		}
+		leaves = append(leaves, v)
+	}
+	walk(phi)
+	nilEdges, asserts := 0, 0
+	var assertIns *ssa.TypeAssert
+	for _, l := range leaves {
+		switch x := l.(type) {
+		case *ssa.Const:
+			if x.Value == nil {
+				nilEdges++
+				continue
+			}
+		case *ssa.Extract:
+			if ta, ok := x.Tuple.(*ssa.TypeAssert); ok && ta.CommaOk && x.Index == 0 && ta.X == node {
+				// the extracted value may only flow in over the edge on which ok is true
+				okGuard := false
+				for _, ref := range *ta.Referrers() {
+					if ex2, ok := ref.(*ssa.Extract); ok && ex2.Index == 1 {
+						for _, r2 := range *ex2.Referrers() {
+							if iff, ok := r2.(*ssa.If); ok {
+								// the phi edge carrying x must come from the true successor's region
+								tb := iff.Block().Succs[0]
+								for _, ph := range phisUsing(dec, x) {
+									for i, e := range ph.Edges {
+										if e == ssa.Value(x) && (ph.Block().Preds[i] == tb || tb.Dominates(ph.Block().Preds[i])) {
+											okGuard = true
+										}
+									}
+								}
+							}
+						}
+					}
+				}
+				if !okGuard {
+					o.Fail("the decoder's current family is overwritten with the result of a failed type assertion: a record that is not a family resets it to nil, so HUSB/WIFE/CHIL lines the encoder wrote after such a record are rejected ('cannot create Husband without a family')")
+					return
+				}
+				asserts++
+				assertIns = ta
+				continue
+			}
+		}
+		o.Fail("a value other than the decoded family node flows into the decoder's current family: " + l.String())
+		return
+	}
+	if asserts == 0 || nilEdges > 1 {
+		o.Fail(fmt.Sprintf("the decoder's current family is not maintained from the decoded nodes (%d assertion edges, %d nil edges)", asserts, nilEdges))
+		return
+	}
+	// the assertion must be evaluated for every parsed line: it dominates every attach (AddNode) call
+	for _, c := range su.Calls(dec) {
+		name := ""
+		if c.Common().IsInvoke() {
+			name = c.Common().Method.Name()
+		} else if cal := c.Common().StaticCallee(); cal != nil {
+			name = cal.Name()
+		}
+		if name == "AddNode" && !su.Dominates(assertIns, c) {
+			o.Fail("the family assertion is not made for every decoded line (it does not dominate the attach at " + p.Pos(c.Pos()) + "): a FAM line at that position does not become the current family")
+			return
+		}
+	}
+	o.OK("updated from every decoded *FamilyNode under its ok test; never reset")
+}
+
+func phisUsing(fn *ssa.Function, v ssa.Value) []*ssa.Phi {
+	var out []*ssa.Phi
+	for _, b := range fn.Blocks {
+		for _, ins := range b.Instrs {
+			if ph, ok := ins.(*ssa.Phi); ok {
+				for _, e := range ph.Edges {
+					if e == v {
+						out = append(out, ph)
+						break
+					}
+				}
+			}
+		}
+	}
+	return out
 }
 
 type lineGroups struct{ level, pointer, tag, value int }
@@ -417,7 +557,7 @@ func c01Writer(p *load.Prog, r *oblig.Run) {
 		}
 		return s
 	}
-	const P, T, V = "", "", ""
+	const P, T, V = "%s.%d", "", "%v 100%% %"
 	for _, indent := range []int64{-1, 0, 7, 10, 99} {
 		for _, ptr := range []string{"", P} {
 			for _, val := range []string{"", V} {
@@ -737,8 +877,17 @@ func c01BOM(p *load.Prog, r *oblig.Run) {
 				bad = p.Pos(c.Pos())
 			}
 		}
+		// every return of Encode must come after the BOM step: an early exit before it drops the BOM of a document without records
+		early := ""
+		for _, b := range enc.Blocks {
+			if ret, ok := b.Instrs[len(b.Instrs)-1].(*ssa.Return); ok && !su.Dominates(anchor, ret) {
+				early = p.Pos(ret.Pos())
+			}
+		}
 		if n == 0 {
 			o.Unknown("no renderNode call in Encode")
+		} else if early != "" {
+			o.Fail("Encode can return at " + early + " without having passed the BOM write: a document with HasBOM set (for example one without records) is encoded without its byte-order mark")
 		} else if bad != "" {
 			o.Fail("a node is rendered at " + bad + " on a path that has not yet passed the BOM write")
 		} else {
